@@ -223,9 +223,9 @@ macro_rules! plan_general {
             if elig < 2 {
                 assert!(plan.moves.is_empty(), "fewer than two mergeable segments must give an empty plan");
             }
-            crate::witness!(1, plan.moves.len() == N - 1, "every other segment merged");
-            crate::witness!(2, $thr <= 0.5 || (plan.moves.len() == 1 && elig == N), "a source did not fit (reachable only above threshold 0.5)");
-            crate::witness!(3, N < 5 || plan.target_segments.len() == 2, "a second destination receives a move (needs 5 segments)");
+            kani::cover!(plan.moves.len() == N - 1, "every other segment merged");
+            kani::cover!($thr <= 0.5 || (plan.moves.len() == 1 && elig == N), "a source did not fit (reachable only above threshold 0.5)");
+            kani::cover!(N < 5 || plan.target_segments.len() == 2, "a second destination receives a move (needs 5 segments)");
             std::mem::forget(plan);
             std::mem::forget(segs);
         });
@@ -270,9 +270,7 @@ macro_rules! plan_live_bytes {
                 assert!(d < N, "move names a segment outside the population");
                 assert!(m.dest_offset >= wp[d], "KF: move targets bytes the destination segment already uses (dest_offset < destination's write_position)");
             }
-            // witness after the assertion (the driver replays the first generated playback test, which
-            // must be the assertion's, not the witness's)
-            crate::witness!(1, a < plan.moves.len(), "plan has a move");
+            kani::cover!(a < plan.moves.len(), "plan has a move");
             std::mem::forget(plan);
             std::mem::forget(segs);
         });
@@ -305,7 +303,7 @@ macro_rules! plan_overfill {
                 k += 1;
             }
             assert!(wp[d] as u128 + incoming <= SIZE as u128, "KF: destination's own used bytes plus the bytes moved into it exceed segment_size");
-            crate::witness!(1, incoming > 0, "segment receives data");
+            kani::cover!(incoming > 0, "segment receives data");
             std::mem::forget(plan);
             std::mem::forget(segs);
         });
@@ -371,7 +369,7 @@ plan_harness!(c18_plan_source_reuse_n5_s30_t100, 7, {
     let segs = population::<N>(&frozen, &wp);
     let plan = plan_archive_merge(&segs, 1.0, SIZE);
     assert!(check_no_reuse(&plan, a, b), "KF: segment emptied as the source of one move is the destination of another move");
-    crate::witness!(1, plan.moves.len() >= 3, "plan with three moves");
+    kani::cover!(plan.moves.len() >= 3, "plan with three moves");
     std::mem::forget(plan);
     std::mem::forget(segs);
 });
@@ -396,7 +394,7 @@ plan_harness!(c18_plan_symbolic_config_n3, 5, {
     let plan = plan_archive_merge(&segs, thr, size);
     check_plan::<N>(&plan, &frozen, &wp, size, None, a, b);
     assert!(check_no_reuse(&plan, a, b), "segment is both a source and a destination");
-    crate::witness!(1, plan.moves.len() == N - 1 && size % 1000 == 7, "two moves with a non power-of-two size");
+    kani::cover!(plan.moves.len() == N - 1 && size % 1000 == 7, "two moves with a non power-of-two size");
     std::mem::forget(plan);
     std::mem::forget(segs);
 });
@@ -420,7 +418,7 @@ plan_harness!(c18_plan_symbolic_config_n5, 7, {
     let plan = plan_archive_merge(&segs, thr, size);
     check_plan::<N>(&plan, &frozen, &wp, size, None, a, b);
     check_later_destinations::<N>(&plan, &wp, size, a, b);
-    crate::witness!(1, plan.moves.len() == 3 && plan.target_segments.len() == 2, "two destinations in one plan");
+    kani::cover!(plan.moves.len() == 3 && plan.target_segments.len() == 2, "two destinations in one plan");
     std::mem::forget(plan);
     std::mem::forget(segs);
 });
